@@ -13,6 +13,7 @@ import (
 	"math/big"
 	"sort"
 	"strings"
+	"time"
 	gotime "time"
 
 	sjson "go.starlark.net/lib/json"
@@ -147,11 +148,11 @@ func buildPool() []poolEntry {
 			return mustCall(c, "range", starlark.MakeInt(5), starlark.MakeInt(-5), starlark.MakeInt(-2))
 		}),
 		f("struct(a=1)", func(*cctx) starlark.Value { return structOf("a", starlark.MakeInt(1)) }),
-		f("l=[struct(x=l)]", func(*cctx) starlark.Value { // a struct inside a list inside itself
+		{name: "l=[struct(x=l)]", huge: true, mk: func(*cctx) starlark.Value { // a struct inside a list inside itself (printing it never ends: known finding; kept out of the arity>=2 product)
 			l := starlark.NewList(nil)
 			l.Append(structOf("x", l))
 			return l
-		}),
+		}},
 		f("len", func(*cctx) starlark.Value { return starlark.Universe["len"] }),
 		f("[].append", func(*cctx) starlark.Value { m, _ := starlark.NewList(nil).Attr("append"); return m }),
 		f("f0", func(c *cctx) starlark.Value { return c.fns["f0"] }),
@@ -281,6 +282,8 @@ type callMode struct {
 	prim      []int
 	nA, nB2   int64
 	nB3, nS   int64
+	nE        int64 // arity 2 over the boundary sub-pool (edge), all callables
+	edge      []int
 	fns       starlark.StringDict
 	single    *callCase
 	singleErr string
@@ -293,6 +296,12 @@ func newCallMode(o *opts) *callMode {
 			m.small = append(m.small, i)
 		}
 	}
+	for i, p := range m.pool {
+		switch p.name {
+		case "None", "1<<62", "-(1<<63)", "-1", `""`, `"a b"`, "nan", "[]", "l=[l]", "1<<100", "f1", "{}":
+			m.edge = append(m.edge, i)
+		}
+	}
 	for i, c := range m.cs {
 		if c.primary {
 			m.prim = append(m.prim, i)
@@ -302,7 +311,9 @@ func newCallMode(o *opts) *callMode {
 	Q := int64(len(m.small))
 	C := int64(len(m.cs))
 	m.nA = C * (1 + P)
+	m.nE = C * int64(len(m.edge)*len(m.edge))
 	if o.tier == "thorough" {
+		m.nE = 0 // covered by the full arity-2 product
 		m.nB2 = C * Q * Q
 		m.nB3 = int64(len(m.prim)) * Q * Q * Q
 		m.nS = 300000
@@ -320,12 +331,12 @@ func newCallMode(o *opts) *callMode {
 	m.fns = fns
 	if o.single != "" {
 		m.single = m.parseSingle(o.single)
-		m.nA, m.nB2, m.nB3, m.nS = 1, 0, 0, 0
+		m.nA, m.nB2, m.nB3, m.nS, m.nE = 1, 0, 0, 0, 0
 	}
 	return m
 }
 
-func (m *callMode) Count() int64 { return m.nA + m.nB2 + m.nB3 + m.nS }
+func (m *callMode) Count() int64 { return m.nA + m.nE + m.nB2 + m.nB3 + m.nS }
 
 func (m *callMode) decode(i int64) callCase {
 	if m.single != nil {
@@ -342,6 +353,13 @@ func (m *callMode) decode(i int64) callCase {
 		return callCase{callable: int(c), args: []int{int(r - 1)}}
 	}
 	i -= m.nA
+	if i < m.nE {
+		E := int64(len(m.edge))
+		c := i / (E * E)
+		r := i % (E * E)
+		return callCase{callable: int(c), args: []int{m.edge[r/E], m.edge[r%E]}}
+	}
+	i -= m.nE
 	if i < m.nB2 {
 		c := i / (Q * Q)
 		r := i % (Q * Q)
@@ -496,6 +514,13 @@ func (m *callMode) Key(i int64, kind, detail string) string {
 		return "call:" + name + ":timeout"
 	}
 	return "call:" + name + ":" + kind
+}
+
+func (m *callMode) Timeout(i int64) time.Duration {
+	if m.isHuge(m.decode(i)) {
+		return 2500 * time.Millisecond
+	}
+	return 0
 }
 
 func (m *callMode) Dist(i int64) string {
